@@ -23,6 +23,11 @@ A fourth family, oracle-only too, has SEVERAL hosts (`gen_shared`): host j>0 wra
 module of an earlier host (a shallow copy of a trained module shares its W list, counters, labels_ and params dict); the
 hosts are trained in an interleaved schedule and after every training call the map / label / predict clauses of the
 statement are evaluated on every host, the ones the call did not train included.
+A fifth family, oracle-only, is the EXCEPTION PATH (`gen_faulty`): a training call raises from inside the base module
+(new_weight / add_weight / update / set_weight / the kernels of a user subclass of the elementary module, a category budget,
+or the library's own arithmetic: ART1 with L = 1.0 meeting the all-zero pattern) or from the reset function; the caller
+catches the error and keeps training / predicting with the same estimator (dropping the batch or presenting it again);
+the map / label / predict clauses of the statement are evaluated after every call, the failed ones included.
 """
 from __future__ import annotations
 
@@ -40,10 +45,13 @@ RULE = ("cases = (base class, base hyper-parameters, rho_lower_bound, data set, 
         "veto table by cluster label, reset function keyed on the category (index / weight / match value), reset function that "
         "re-enters the estimator (nested partial_fit/step_fit of anchor rows while a step is searching) or none, call "
         "history fit/partial_fit/predict/re-fit) or (two or three hosts, host j>0 over copy.copy / deepcopy of an earlier "
-        "host's base module taken before or after its training, interleaved schedule of their training calls); a case is non-trivial when a step visited >= 2 categories, spawned a "
+        "host's base module taken before or after its training, interleaved schedule of their training calls) or (base module "
+        "= library class or user subclass whose hooks raise by a fault plan: category budget / per-hook schedule / raising reset "
+        "function, schedule of fit/partial_fit calls whose exceptions the caller catches, drop-or-retry policy); a case is non-trivial when a step visited >= 2 categories, spawned a "
         "category, met a veto, two categories of one cluster got different verdicts, or a nested call added a category "
         "while the step was searching and the step then created one too, or a host was checked after a training call of "
-        "another host whose base module shared its W list when the copy was taken; distinct by hash of all of these")
+        "another host whose base module shared its W list when the copy was taken, or a call failed while a category was "
+        "being opened (>= 1 category present) and a later call created a category; distinct by hash of all of these")
 
 SIG_F18 = "DualVigilanceART.step_fit:nonpositive-activation-not-visited"
 SIG_LOWERED = "DualVigilanceART.step_fit:reset+tracking:absorbed-below-configured-rho"
@@ -618,6 +626,323 @@ def run_shared(ctx, case, idx):
         cov.hit("shared-base-module:reset")
 
 
+# ---------------------------------------------------------------- exception paths inside a training call, then continued use
+FAULT_FAMILIES = ("library:ART1(L=1.0)+all-zero-pattern", "category-budget", "hook-schedule", "reset-function-raises", "mixed")
+FAULT_HOOKS = ("new_weight", "add_weight", "update", "set_weight", "category_choice", "match_criterion_bin")
+FAULT_EXC = {"MemoryError": MemoryError, "RuntimeError": RuntimeError, "ValueError": ValueError, "KeyError": KeyError,
+             "ZeroDivisionError": ZeroDivisionError, "FloatingPointError": FloatingPointError, "OverflowError": OverflowError}
+FAULT_DOC = (
+    "A training history in which calls FAIL and the caller carries on with the same DualVigilanceART.  `base` is either a "
+    "library class as it is (family 'library:…': ART1 with the boundary value L = 1.0 cannot build a weight for the all-zero "
+    "pattern, L / (L - 1 + |x|) divides by zero) or an instance of a USER SUBCLASS class Faulty<cls>(artlib.<cls>) of the "
+    "elementary module, built with the spec's keyword arguments, whose hooks new_weight / add_weight / update / set_weight / "
+    "category_choice / match_criterion_bin first consult the fault plan and then delegate to super() unchanged: a hook that "
+    "raises has done NOTHING (it raises before delegating).  While a fit / partial_fit call of the schedule is running (never "
+    "during predict): `budget` (if not None) — new_weight raises MemoryError when len(self.W) >= budget; `hooks` {name: p} — "
+    "the k-th call of hook `name` (counted over all training calls) raises FAULT_EXC[exc] iff C13.fault_coin(salt, name, k) < p, "
+    "at most `max_hook_faults` times; `reset` (if not None) — match_reset_func = lambda x, w, label, params, cache: raises "
+    "FAULT_EXC[reset.exc] iff fault_coin(reset.salt, 'reset', number of the call) < reset.p_raise, otherwise answers "
+    "C13.shared_permit(reset, x, label).  `schedule` = [kind, a, b]: dual.fit / dual.partial_fit(X[a:b], match_reset_func, "
+    "match_tracking=mode, epsilon=eps); every exception is caught by the caller; `on_failure` = 'drop' (go on with the next "
+    "batch) or 'retry' (present the same batch once more with the same call; a category budget is first enlarged by "
+    "`budget_step` when `repair` is 'enlarge').  After EVERY call, failed or not, the structural clauses of the statement are "
+    "evaluated: map keys = the base module's categories 0..len(W)-1, map values exactly 0..n_clusters-1, no entry of the map "
+    "changed (except by fit, which starts afresh), every label returned by a step that completed, every entry of labels_ and "
+    "every label predicted for the rows presented so far and for the probe rows is such a cluster label, predict does not raise.")
+
+
+def fault_coin(salt, name, k):
+    h = hashlib.blake2b(struct.pack("<IQ", salt, k) + name.encode(), digest_size=4).digest()
+    return int.from_bytes(h, "big") / 2.0 ** 32
+
+
+_FAULTY_CLASSES = {}
+
+
+def faulty_class(C):
+    """the user subclass of the elementary class C described in FAULT_DOC (one per class)"""
+    if C in _FAULTY_CLASSES:
+        return _FAULTY_CLASSES[C]
+    Sub = type("Faulty" + C.__name__, (C,), {"__doc__": "user subclass: hooks consult a fault plan, then delegate to super()"})
+
+    def mk(name):
+        def hook(self, *a, **kw):
+            f = self.__dict__.get("_c13_fault")
+            if f is not None and f["armed"]:
+                f["consult"](name, self)                      # may raise: nothing has been done yet
+            out = getattr(super(Sub, self), name)(*a, **kw)
+            if f is not None and f["armed"] and name == "match_criterion_bin":
+                f["last_bin"] = (float(kw["params"]["rho"]) if "params" in kw else None, bool(out[0]))
+            return out
+        hook.__name__ = name
+        return hook
+    for name in FAULT_HOOKS:
+        setattr(Sub, name, mk(name))
+    _FAULTY_CLASSES[C] = Sub
+    return Sub
+
+
+def gen_faulty(r, i, nmax):
+    """one case of the exception-path family (see FAULT_DOC), as data"""
+    fam = FAULT_FAMILIES[i % len(FAULT_FAMILIES)]
+    library = fam.startswith("library")
+    cls = "ART1" if library else specs.ELEM[(i // len(FAULT_FAMILIES)) % len(specs.ELEM)]
+    mode = r.choice(MODES)
+    n = r.randint(2, nmax)
+    if library:
+        d = r.randint(2, 6)
+        spec = {"cls": "ART1", "rho": r.choice([0.25, 0.5, 0.75, 0.875, 1.0]), "L": 1.0}
+        X = gen.binary_rows(r, n, d, allow_zero=True)
+        for j in r.sample(range(n), r.randint(1, max(1, n // 3))):        # the pattern ART1(L=1) cannot code
+            X[j] = 0.0
+        floats = False
+    else:
+        d = r.randint(1, 3)
+        spec = specs.elem_spec(r, cls, d)
+        if spec["rho"] <= 0:
+            spec["rho"] = r.choice([0.25, 0.5, 0.75, 0.875, 1.0])
+        floats = r.random() < 0.25 and cls != "ART1"
+        X = specs.elem_data(r, cls, n, d, style=r.choice([None, None, "corners", "coarse", "dups"]), floats=floats)
+    rho = spec["rho"]
+    lbs = [0.0, 0.0, rho / 2, rho / 4, rho * 0.875] + ([0.125] if rho > 0.125 else [])
+    lb = float(r.choice(lbs))
+    eps = r.choice([0.0, 2.0 ** -20, 2.0 ** -10, 1e-10, 0.125])
+    probe = gen.binary_rows(r, 2, d, allow_zero=True) if library else specs.elem_data(r, cls, 2, d, floats=floats)
+    sched, a = [], 0
+    for p in gen.compositions(r, n):
+        sched.append([r.choice(["pfit", "pfit", "pfit", "fit"]), a, a + p])
+        a += p
+    plan = {"family": fam, "salt": r.getrandbits(32), "budget": None, "budget_step": r.choice([1, 2, 10]),
+            "repair": r.choice(["enlarge", "enlarge", "none"]), "hooks": {}, "exc": r.choice(sorted(FAULT_EXC)),
+            "max_hook_faults": r.choice([1, 2, 4, 8]), "reset": None, "on_failure": r.choice(["drop", "retry", "retry"])}
+    if fam in ("category-budget", "mixed"):
+        plan["budget"] = r.randint(1, 4)
+    if fam in ("hook-schedule", "mixed"):
+        rates = {"new_weight": [0.15, 0.3, 0.5], "add_weight": [0.15, 0.3, 0.5], "update": [0.1, 0.25], "set_weight": [0.1, 0.25],
+                 "category_choice": [0.02, 0.05], "match_criterion_bin": [0.03, 0.08]}
+        names = r.sample(FAULT_HOOKS, r.randint(1, 3))
+        if not any(h in names for h in ("new_weight", "add_weight")) and r.random() < 0.6:
+            names.append(r.choice(["new_weight", "add_weight"]))
+        plan["hooks"] = {h: r.choice(rates[h]) for h in sorted(names)}
+    if fam in ("reset-function-raises", "mixed") or r.random() < 0.3:
+        raises = fam in ("reset-function-raises", "mixed")
+        plan["reset"] = {"salt": r.getrandbits(32), "p_permit": r.choice([0.3, 0.5, 0.7, 0.85]),
+                         "p_raise": r.choice([0.05, 0.15, 0.3]) if raises else 0.0, "exc": r.choice(sorted(FAULT_EXC))}
+    return dict(cls=cls, mode=mode, d=d, spec=spec, lb=lb, eps=eps, X=X, probe=probe, schedule=sched, plan=plan)
+
+
+def run_faulty(ctx, case, idx):
+    """Oracle-only (the Lean model is a model of calls that return): the structural clauses of the statement executed after
+    every training call, the ones that raised included.  A call that fails may leave its sample un-learned; it may not leave
+    the map, the categories and the labels inconsistent with each other."""
+    cov = ctx.cov
+    cls, mode, spec, lb, eps, X, probe, sched, plan = (case[k] for k in ("cls", "mode", "spec", "lb", "eps", "X", "probe",
+                                                                         "schedule", "plan"))
+    library = plan["family"].startswith("library")
+    rep = {"case": idx, "class": cls, "spec": spec, "rho_lower_bound": lb, "mode": mode, "eps": eps, "X": X, "probe": probe,
+           "schedule": sched, "fault_plan": plan, "doc": FAULT_DOC}
+    key = ("faulty", cls, spec, lb, mode, eps, X.tolist(), probe.tolist(), sched, plan)
+    PRE = "DualVigilanceART:exception-path:"
+    st = {"armed": False, "calls": {h: 0 for h in FAULT_HOOKS}, "reset_calls": 0, "budget": plan["budget"], "hook_faults": 0,
+          "faults": [], "last_bin": None, "raised": None, "returned": []}
+    try:
+        with quiet():
+            if library:
+                base = make(spec)
+            else:
+                kw = {k: (np.array(v, dtype=float) if k in ("sigma_init", "cov_init") else deepcopy(v))
+                      for k, v in spec.items() if k != "cls"}
+                base = faulty_class(type(make(spec)))(**kw)
+            dual = DualVigilanceART(base, lb)
+    except Exception as e:
+        ctx.issue("violation", f"DualVigilanceART.__init__:{cls}:{exc_enum(e)}",
+                  f"constructor raised {e!r} for rho={spec['rho']} > rho_lower_bound={lb} >= 0 (base module: a user subclass "
+                  f"of {cls} that overrides hooks by delegating wrappers)", rep)
+        cov.case(key, False)
+        return
+
+    def nW():
+        return len(base.W) if "W" in base.__dict__ else 0
+
+    def fire(where, exc_name):
+        n = nW()
+        if where in ("new_weight", "add_weight", "budget"):
+            branch = ("first-sample" if n == 0 else
+                      "spawning-under-an-existing-cluster" if st["last_bin"] == (lb, True) else "opening-a-brand-new-cluster")
+        else:
+            branch = "searching"
+        st["faults"].append({"in": where, "exception": exc_name, "categories": n, "while": branch, "event": st["event"]})
+        cov.hit("exception-path:raised-in:" + where)
+        cov.hit("exception-path:raised-while:" + branch)
+        st["raised"] = FAULT_EXC[exc_name](f"injected by the fault plan in {where} ({n} categories)")
+        raise st["raised"]
+
+    def consult(name, mod):
+        st["calls"][name] += 1
+        if name == "new_weight" and st["budget"] is not None and len(mod.W) >= st["budget"]:
+            fire("budget", "MemoryError")
+        p = plan["hooks"].get(name)
+        if p and st["hook_faults"] < plan["max_hook_faults"] and fault_coin(plan["salt"], name, st["calls"][name]) < p:
+            st["hook_faults"] += 1
+            fire(name, plan["exc"])
+    st["consult"] = consult
+    if not library:
+        base.__dict__["_c13_fault"] = st
+    rs = plan["reset"]
+    reset = None
+    if rs is not None:
+        def reset(i_, w_, c_, params, cache):
+            st["reset_calls"] += 1
+            if rs["p_raise"] > 0 and fault_coin(rs["salt"], "reset", st["reset_calls"]) < rs["p_raise"]:
+                fire("reset-function", rs["exc"])
+            return shared_permit(rs, i_, c_)
+
+    inner = dual.step_fit
+
+    def framed(x, *a, **kw):
+        st["last_bin"] = None
+        c = inner(x, *a, **kw)
+        st["returned"].append(int(c))
+        return c
+    object.__setattr__(dual, "step_fit", framed)
+
+    seen, known = [], None
+    flags = {"failed": 0, "stale": False, "opening-failed": False, "opened-after": False, "continued": False, "target": False}
+
+    def clauses(k, ev, attempt, err):
+        """the statement's structural clauses after the call of event k returned or raised; True iff all hold"""
+        nonlocal known
+        n, cmap = nW(), dict(dual.map)
+        how = f"raised {err!r}" if err is not None else "returned"
+        where = f"after event {k} {ev}" + (" (second presentation)" if attempt else "") + f" {how}"
+        srep = dict(rep, failing_event=k, attempt=attempt, call_raised=None if err is None else repr(err),
+                    faults_so_far=list(st["faults"]), map=cmap, n_categories=n, category_budget_now=st["budget"])
+        P = np.vstack(seen + [probe])
+        ok = True
+        if sorted(cmap) != list(range(n)):
+            missing, extra = sorted(set(range(n)) - set(cmap)), sorted(set(cmap) - set(range(n)))
+            stale = n == 0 and err is not None and not st["returned"] and (ev[0] == "fit" or flags["stale"])
+            # `stale`: the residue of F05 (known finding C13-b: fit discards W and keeps the previous map until the first sample
+            # has been learned), reached here by a first sample that fails instead of by an empty batch; own signature
+            ctx.issue("violation", PRE + ("failed-fit:first-sample-failed:stale-map" if stale else "map-not-total"),
+                      f"{where}: {n} categories in the base module, map keys {sorted(cmap)} (n_clusters {dual.n_clusters}): "
+                      f"categories without a cluster {missing}, keys that are no category {extra}"
+                      + ("; fit discarded W and kept the map of the previous fit" if stale else ""), srep)
+            if stale:
+                known, flags["stale"] = None, True   # the next sample that is learned starts the map afresh: keep checking
+                cov.hit("exception-path:failed-fit:first-sample-failed:stale-map")
+                return True
+            return False
+        flags["stale"] = False
+        vals = sorted(set(cmap.values()))
+        if vals != list(range(len(vals))) or len(vals) != dual.n_clusters:
+            ctx.issue("violation", PRE + "map-values-not-contiguous",
+                      f"{where}: map values {vals}, n_clusters {dual.n_clusters}, map {cmap}", srep)
+            ok = False
+        if known is not None and ev[0] != "fit":
+            moved = {c: (v, cmap.get(c)) for c, v in known.items() if cmap.get(c) != v}
+            if moved:
+                ctx.issue("violation", PRE + "map-entry-changed",
+                          f"{where}: map was {known}, is {cmap} (category: before, after) {moved}", srep)
+                ok = False
+        bad = [t for t in st["returned"] if t not in vals]
+        if bad:
+            ctx.issue("violation", PRE + "returned-label-not-a-cluster",
+                      f"{where}: the steps of this call that completed returned {st['returned']}, map values {vals}", srep)
+            ok = False
+        if n > 0:
+            lab = [int(t) for t in dual.labels_]
+            if any(t not in vals for t in lab):
+                ctx.issue("violation", PRE + "label-not-a-cluster", f"{where}: labels_ {lab}, map values {vals}", srep)
+                ok = False
+            try:
+                with quiet():
+                    y = [int(t) for t in dual.predict(P)]
+            except Exception as e:
+                ctx.issue("violation", PRE + f"predict:{cls}:{exc_enum(e)}",
+                          f"{where}: predict raised {e!r} on the rows presented so far / valid probe rows (map {cmap}, {n} "
+                          f"categories)", dict(srep, predict_on=P))
+                return False
+            if any(t not in vals or not (0 <= t < dual.n_clusters) for t in y):
+                ctx.issue("violation", PRE + "predicted-label-not-a-cluster",
+                          f"{where}: predicted {y}, map values {vals}, n_clusters {dual.n_clusters}", dict(srep, predict_on=P))
+                ok = False
+            if err is not None:
+                cov.hit("exception-path:predict-after-a-failed-call")
+        if ok:
+            known = cmap
+        return ok
+
+    def call(k, ev, attempt):
+        kind, a, b = ev
+        B = X[a:b]
+        n0 = nW() if kind != "fit" else 0
+        p0 = params_tree(dual)
+        st["event"], st["returned"], st["raised"], err = k, [], None, None
+        st["armed"] = True
+        try:
+            with quiet():
+                if kind == "fit":
+                    dual.fit(B, match_reset_func=reset, match_tracking=mode, epsilon=eps)
+                else:
+                    dual.partial_fit(B, match_reset_func=reset, match_tracking=mode, epsilon=eps)
+        except Exception as e:
+            err = e
+        finally:
+            st["armed"] = False
+        if not attempt:
+            seen.append(B)
+        if err is None:
+            cov.hit("exception-path:call-returned:" + kind)
+            if flags["failed"]:
+                flags["continued"] = True
+                cov.hit("exception-path:training-continued-after-a-failed-call")
+                if flags["opening-failed"] and nW() > n0:
+                    flags["opened-after"] = True
+                    cov.hit("exception-path:category-created-after-a-failed-attempt-to-open-one")
+        else:
+            flags["failed"] += 1
+            cov.hit("exception-path:call-raised:" + kind)
+            if err is not st["raised"]:
+                # the library's own arithmetic (ART1, L = 1.0, all-zero pattern) or a consequence of an earlier failed call:
+                # a failed call like any other, the subject here is the state it leaves behind
+                cov.hit("exception-path:raised-by-the-library:" + exc_enum(err) + (":" + cls if library else ":after-injected-faults:" + cls))
+                st["faults"].append({"in": "library", "exception": repr(err), "categories": nW(), "event": k})
+                if nW() > 0:
+                    flags["opening-failed"] = True       # ART1(L=1): only new_weight divides by L - 1 + |x|
+            elif st["faults"][-1]["while"] != "searching" and st["faults"][-1]["categories"] > 0:
+                flags["opening-failed"] = True
+            if len(st["returned"]) > 0:
+                cov.hit("exception-path:call-failed-after-some-steps-completed")
+            if params_tree(dual) != p0:
+                # an observation, not a clause of C13's statement: match tracking had moved rho when the step was abandoned
+                cov.hit("exception-path:observation:parameters-left-modified-by-the-failed-call")
+        return err, clauses(k, ev, attempt, err)
+
+    for k, ev in enumerate(sched):
+        err, ok = call(k, ev, 0)
+        if ok and err is not None and plan["on_failure"] == "retry":
+            if st["budget"] is not None and plan["repair"] == "enlarge" and st["faults"] and st["faults"][-1]["in"] == "budget":
+                st["budget"] += plan["budget_step"]
+                cov.hit("exception-path:budget-enlarged")
+            cov.hit("exception-path:retry")
+            err, ok = call(k, ev, 1)
+        if not ok:
+            break
+    dual.__dict__.pop("step_fit", None)
+    base.__dict__.pop("_c13_fault", None)
+    flags["target"] = flags["opening-failed"] and flags["opened-after"]
+    cov.case(key, flags["target"])
+    cov.hit("exception-path")
+    cov.hit("exception-path:family:" + plan["family"])
+    if flags["failed"]:
+        cov.hit("exception-path:class:" + cls)
+        cov.hit("exception-path:mode:" + mode)
+        cov.hit("exception-path:on-failure:" + plan["on_failure"])
+    if flags["target"]:
+        cov.hit("exception-path:failed-opening-then-category-created")
+
+
 def split_mseq(st, has_reset):
     """`match_criterion_bin` is called once per visited category (upper test, also when vetoed) and
     once more (lower test) when the category was allowed and failed the upper
@@ -1184,6 +1509,10 @@ def run(ctx):
     for i in range(ctx.scale(320, 1500)):
         r = gen.rng_for(ctx.seed, "C13-shared-base-module", i)
         run_shared(ctx, gen_shared(r, i, ctx.scale(12, 30)), 4 * 10 ** 6 + i)
+    # calls that raise inside the base module / the reset function, then continued use (oracle-only, see run_faulty)
+    for i in range(ctx.scale(400, 2000)):
+        r = gen.rng_for(ctx.seed, "C13-exception-path", i)
+        run_faulty(ctx, gen_faulty(r, i, ctx.scale(12, 30)), 5 * 10 ** 6 + i)
     outs = run_driver(lines)
     for line, out, (rep, exp_out, cls) in zip(lines, outs, expect):
         compare(ctx, rep, exp_out, out, cls, line)
